@@ -32,7 +32,7 @@ LEVEL_NOTE = ('pydicom is trusted to read the stored Part-10 file back; PDUs mix
 RULE = ('case = (message class, data length, fragment sizes, composition into PDUs, reception mode); distinct = same '
         'tuple; non-trivial = at least two fragments or file-backed reception')
 ASSUMPTIONS = ['fragment streams are well-formed as in C06 (command fragments first, one last fragment each)']
-REQUIRED = ['oracle.message-across-release-request', 'oracle.hundreds-of-command-fragments', 'oracle.completion-exact', 'oracle.message-content', 'oracle.file-backed', 'oracle.via-provider',
+REQUIRED = ['oracle.file-then-memory-then-file', 'sim.empty-last-fragment', 'oracle.message-across-release-request', 'oracle.hundreds-of-command-fragments', 'oracle.completion-exact', 'oracle.message-content', 'oracle.file-backed', 'oracle.via-provider',
             'oracle.consecutive-messages']
 
 MAXN = {'quick': 7, 'thorough': 11}
@@ -200,13 +200,25 @@ def build_fragments(case, r):
             return [len(blob)]
         points = sorted(r.sample(range(1, len(blob)), n - 1))
         return [b - a for a, b in zip([0] + points, points + [len(blob)])]
-    pdvs = R.fragment(command, data, 0, ctx, cmd_sizes=cut(command, ncmd),
-                      data_sizes=cut(data, ndata) if data is not None else None)
+    # sometimes the last command / data fragment is empty (only its "last" bit matters)
+    el = case.get('empty_last')
+    if el is None:
+        el = r.random() < 0.2
+    el_cmd = bool(el) and ncmd >= 2 and r.random() < 0.5
+    el_data = bool(el) and data is not None and ndata >= 2 and (not el_cmd or r.random() < 0.5)
+    pdvs = R.fragment(command, data, 0, ctx, cmd_sizes=cut(command, ncmd - el_cmd),
+                      data_sizes=cut(data, ndata - el_data) if data is not None else None,
+                      empty_last_cmd=el_cmd, empty_last_data=el_data)
+    if el_cmd or el_data:
+        case['_empty_last'] = True
     assert len(pdvs) == nfrag, (len(pdvs), nfrag)
     if case.get('long'):
         case['nfrag'] = nfrag
         case['comp'] = {'one': [nfrag], 'each': [1] * nfrag}.get(case['comp']) or random_composition(r, nfrag)
     return pdvs, command, data, ctx
+
+
+_shared = {}
 
 
 def run_case(res, case, tmpdir):
@@ -220,6 +232,8 @@ def run_case(res, case, tmpdir):
     if built is None:
         return
     pdvs, command, data, ctx = built
+    if case.pop('_empty_last', None):
+        res.count('sim.empty-last-fragment')
     res.evaluations += 1
     name = case['cls']
     comp = case['comp']
@@ -258,7 +272,11 @@ def run_case(res, case, tmpdir):
         accepted = {ctx: asceprovider.PContextDef(ctx, uid.UID(sop_class), ts)}
         store_in_file = frozenset([sop_class])
         if case['kind'] == 'tempfile':
-            get_file = applicationentity.ClientAE('C07').get_file
+            # one entity for all cases of the process: it serves many associations in its life, with
+            # whatever each of them negotiated for a context id
+            if 'ae' not in _shared:
+                _shared['ae'] = applicationentity.ClientAE('C07')
+            get_file = _shared['ae'].get_file
         else:
             sdir = tempfile.mkdtemp(prefix='store-', dir=tmpdir)
             get_file = pynetdicom2.ClientStorageAE(sdir, 'C07').get_file
@@ -372,6 +390,59 @@ def check_message(res, case, where, msg, pc_id, name, command, data, ctx):
             m = None
 
 
+def mixed_reception(res, case, where, role, prefix, r):
+    """One association receives a file-backed message, then a message whose data set stays in
+    memory, then a file-backed one again: each is reassembled on its own."""
+    from pynetdicom2 import applicationentity, asceprovider
+    from pydicom import uid
+    store_class = '1.2.840.10008.5.1.4.1.1.2'
+    find_class = '1.2.840.10008.5.1.4.1.2.1.1'
+    datas = [bytes(r.getrandbits(8) for _ in range(n)) for n in (40, 33, 57)]
+    raws = []
+    for k, (field, sop, ctx) in enumerate(((0x0001, store_class, 3), (0x0020, find_class, 5),
+                                           (0x0001, store_class, 3))):
+        fields = {R.TAG_AFFECTED_SOP_CLASS: sop, R.TAG_COMMAND_FIELD: field, R.TAG_MESSAGE_ID: 20 + k,
+                  R.TAG_PRIORITY: 0, R.TAG_DATA_SET_TYPE: 0x0001}
+        if field == 0x0001:
+            fields[R.TAG_AFFECTED_SOP_INSTANCE] = '1.2.3.%d' % k
+        pdvs = R.fragment(R.build_command_set(fields), datas[k], 30, ctx)
+        raws += [R.build_pdu(t) for t in R.group_pdvs(pdvs, random_composition(r, len(pdvs)))]
+    script, _ = c05.build_script(role, prefix)
+    script += [('bytes', raw) for raw in raws]
+    contexts = {3: asceprovider.PContextDef(3, uid.UID(store_class), uid.ImplicitVRLittleEndian),
+                5: asceprovider.PContextDef(5, uid.UID(find_class), uid.ImplicitVRLittleEndian)}
+    sim = simnet.Sim(role, script, store_in_file={store_class},
+                     get_file_cb=applicationentity.ClientAE('C07').get_file, accepted_contexts=contexts)
+    sim.run()
+    res.count('oracle.file-then-memory-then-file')
+    items = [o for o in sim.indication_objs if isinstance(o, tuple)]
+    if sim.outcome != 'end-of-script' or len(items) != 3:
+        res.violation('mixed-reception-fails', 'C07.provider', '%s: store (file), find (memory), store (file) '
+                      'on one association: run() %s %s, %d messages delivered, indications %r' % (
+                          where, sim.outcome, sim.error, len(items), [i[0] for i in sim.indications]), case)
+        return
+    problems = []
+    for k, (msg, ctx) in enumerate(items):
+        ds = msg.data_set
+        if k == 1:
+            if not isinstance(ds, (bytes, bytearray)) or bytes(ds) != datas[1]:
+                problems.append('message 2 (in memory) carries %s' % (
+                    type(ds).__name__ if not isinstance(ds, (bytes, bytearray)) else '%d other bytes' % len(ds)))
+            continue
+        try:
+            ds.seek(0)
+            whole = ds.read()
+        except Exception as exc:
+            problems.append('file of message %d unreadable: %s: %s' % (k + 1, type(exc).__name__, exc))
+            continue
+        if not whole.endswith(datas[k]) or whole[128:132] != b'DICM':
+            problems.append('file of message %d does not end with its data set (%d bytes in the file)' % (
+                k + 1, len(whole)))
+    if problems:
+        res.violation('mixed-reception-content', 'C07.provider', '%s: store (file), find (memory), store '
+                      '(file) on one association: %s' % (where, '; '.join(problems)), case)
+
+
 def across_release(res, case, where, raws, name, command, data, ctx, role, prefix):
     for cut in range(1, len(raws)):
         script, _ = c05.build_script(role, prefix)
@@ -439,6 +510,9 @@ def via_provider(res, case, where, raws, complete_at, name, command, data, ctx):
     if items:
         check_message(res, dict(case, kind='memory'), where + ' via provider', items[0][0], items[0][1],
                       name, command, data, ctx)
+    if name == 'CStoreRQMessage' and case['state'] == 'Sta6':
+        mixed_reception(res, case, where, role, prefix, rng(case['seed'], 'c07-mixed', case['nfrag'],
+                                                             tuple(case['comp'])))
     # a second and a third message on the same association, in the same state: reassembly
     # state must start afresh for each of them
     r = rng(case['seed'], 'c07-second', name, case['nfrag'], tuple(case['comp']), case['state'])
